@@ -338,33 +338,42 @@ func checkClosures(c *Ctx) {
 				}
 			}
 		}
-		var parentAcc []core.Access
-		for _, a := range lp.Accesses {
-			// accesses inside synchronously called functions are ordered by their call site in the spawner
+		// orderedWith: the spawner's access a is ordered with every goroutine that touches obj (it happens before their go statement
+		// on every path and never again afterwards, or after the join) – goroutines that never touch obj do not matter
+		orderedWith := func(a core.Access, obj string) bool {
 			at := a.Site
 			if at == nil || at.Parent() != f {
-				parentAcc = append(parentAcc, a)
-				continue
+				return false
 			}
-			before := true
-			for _, sp := range spawns {
-				// before = on every path to the spawn and never again afterwards (an access in the spawning loop's body
-				// dominates the go statement of its own iteration but follows the one of the previous iteration)
-				if !core.InstrDominates(at, sp) || instrReaches(sp, at) && !freshPerIteration(a.Instr, at, sp) {
-					before = false
-				}
-			}
-			after := false
 			for _, w := range waits {
 				if core.InstrDominates(w, at) {
-					after = true
+					return true
 				}
 			}
-			if before || after {
-				continue
+			for _, cx := range ctxs {
+				if cx.spawn == nil {
+					continue
+				}
+				touches := false
+				for _, ca := range cx.acc {
+					if ca.Obj == obj || strings.HasPrefix(ca.Obj, obj+".") || strings.HasPrefix(obj, ca.Obj+".") {
+						touches = true
+						break
+					}
+				}
+				if !touches {
+					continue
+				}
+				sp := cx.spawn
+				// an access in the spawning loop's body dominates the go statement of its own iteration but follows the one of the
+				// previous iteration
+				if !core.InstrDominates(at, sp) || instrReaches(sp, at) && !freshPerIteration(a.Instr, at, sp) {
+					return false
+				}
 			}
-			parentAcc = append(parentAcc, a)
+			return true
 		}
+		parentAcc := lp.Accesses
 		ctxs = append(ctxs, ctxAcc{name: "spawner", acc: parentAcc})
 		// group by object
 		objs := map[string]bool{}
@@ -391,6 +400,9 @@ func checkClosures(c *Ctx) {
 					if a.Obj == obj || strings.HasPrefix(a.Obj, obj+".") || strings.HasPrefix(obj, a.Obj+".") {
 						if a.Obj != obj {
 							continue // sub-objects are decided under their own name
+						}
+						if cx.spawn == nil && orderedWith(a, obj) {
+							continue
 						}
 						if core.IsSyncType(a.Typ) || a.Atomic {
 							skip = true
